@@ -292,7 +292,7 @@ func (w *World) run() *Outcome {
 	if cfg.MachineCombiners {
 		opts = append(opts, exec.MachineCombiners)
 	}
-	interp.H = interp.Hooks{Point: w.userPoint, Record: w.record, Partition: w.userPartition}
+	interp.H = interp.Hooks{Point: w.userPoint, Record: w.record, Partition: w.userPartition, WantKeys: c.Oracle.Placement}
 	exec.VerifSetYield(w.yield)
 	w.sess = exec.Start(opts...)
 
@@ -312,7 +312,17 @@ func (w *World) run() *Outcome {
 		return o
 	}
 	w.checkObservers()
-	return w.outcome()
+	pl := w.checkPlacement()
+	gsha := w.checkGraphs()
+	o := w.outcome()
+	o.GraphSHA = gsha
+	if pl != nil {
+		if o.Extra == nil {
+			o.Extra = map[string]any{}
+		}
+		o.Extra["placements"] = pl
+	}
+	return o
 }
 
 func (w *World) addStep(sr StepResult) {
@@ -783,6 +793,36 @@ func diffStrings(w, g []string) string {
 		return fmt.Sprintf("extra rows: want %d, got %d; first extra %s", len(w), len(g), g[len(w)])
 	}
 	return ""
+}
+
+// checkPlacement builds, per writerfunc site, the table key -> shard and checks
+// that no key is seen in two shards (co-location).
+func (w *World) checkPlacement() map[string]map[string]int {
+	if !w.c.Oracle.Placement {
+		return nil
+	}
+	w.mu.Lock()
+	obs := append([]interp.Obs(nil), w.obs...)
+	w.mu.Unlock()
+	out := map[string]map[string]int{}
+	for _, o := range obs {
+		if o.Kind != "w" {
+			continue
+		}
+		t := out[o.Site]
+		if t == nil {
+			t = map[string]int{}
+			out[o.Site] = t
+		}
+		for _, k := range o.Keys {
+			if prev, ok := t[k]; ok && prev != o.Shard {
+				w.violate("key-split", "%s: key %s observed in shard %d and in shard %d", o.Site, k, prev, o.Shard)
+				continue
+			}
+			t[k] = o.Shard
+		}
+	}
+	return out
 }
 
 // expectedCounters returns the expected counter totals for r including its
